@@ -22,7 +22,11 @@ func vfColRef(name string) *vfExpr         { return &vfExpr{op: "col", name: nam
 func vfOp(op string, a ...*vfExpr) *vfExpr { return &vfExpr{op: op, args: a} }
 
 var vfOpText = map[string]string{"is": "is", "isnt": "isnt", "lt": "<", "lte": "<=", "gt": ">", "gte": ">=",
-	"add": "+", "sub": "-", "mul": "*", "cat": "$", "and": "and", "or": "or"}
+	"add": "+", "sub": "-", "mul": "*", "cat": "$", "and": "and", "or": "or",
+	"div": "/", "mod": "%", "bitor": "|", "bitand": "&", "bitxor": "^", "lshift": "<<", "rshift": ">>", "match": "=~", "matchnot": "!~"}
+
+// vfTh is the thread the harness's evaluator passes to core operations that want one (regular expressions).
+var vfTh = &Thread{}
 
 func (e *vfExpr) isCmp() bool {
 	switch e.op {
@@ -52,8 +56,13 @@ func (e *vfExpr) text() string {
 		return e.name
 	case "paren":
 		return "(" + e.args[0].text() + ")"
-	case "is", "isnt", "lt", "lte", "gt", "gte", "add", "sub", "mul", "cat":
+	case "is", "isnt", "lt", "lte", "gt", "gte", "add", "sub", "mul", "cat",
+		"div", "mod", "bitor", "bitand", "bitxor", "lshift", "rshift", "match", "matchnot":
 		return e.args[0].operand() + " " + vfOpText[e.op] + " " + e.args[1].operand()
+	case "bitnot":
+		return "~" + e.args[0].operand()
+	case "uplus":
+		return "+" + e.args[0].operand()
 	case "and", "or":
 		parts := make([]string, len(e.args))
 		for i, a := range e.args {
@@ -159,6 +168,9 @@ func vfFuncByName(name string) *vfFunc {
 type vfEval struct {
 	raw  bool
 	open int
+	// packDisagree counts ordering comparisons of two values whose stored encodings order differently
+	// from the values (a defect of the encoding, property C13); used only to classify failures
+	packDisagree int
 }
 
 func vfSign(n int) int {
@@ -191,7 +203,11 @@ func (ev *vfEval) cmp(x, y Value) int {
 			return 1
 		}
 	}
-	return vfSign(x.Compare(y))
+	c := vfSign(x.Compare(y))
+	if xe == ye && c != vfSign(strings.Compare(vfPack(x), vfPack(y))) {
+		ev.packDisagree++
+	}
+	return c
 }
 
 func (ev *vfEval) bool(e *vfExpr, row vfRow) bool {
@@ -268,6 +284,28 @@ func (ev *vfEval) eval(e *vfExpr, row vfRow) Value {
 		return OpCat(ev.eval(e.args[0], row), ev.eval(e.args[1], row))
 	case "neg":
 		return OpUnaryMinus(ev.eval(e.args[0], row))
+	case "uplus":
+		return OpUnaryPlus(ev.eval(e.args[0], row))
+	case "bitnot":
+		return OpBitNot(ev.eval(e.args[0], row))
+	case "div":
+		return OpDiv(ev.eval(e.args[0], row), ev.eval(e.args[1], row))
+	case "mod":
+		return OpMod(ev.eval(e.args[0], row), ev.eval(e.args[1], row))
+	case "bitor":
+		return OpBitOr(ev.eval(e.args[0], row), ev.eval(e.args[1], row))
+	case "bitand":
+		return OpBitAnd(ev.eval(e.args[0], row), ev.eval(e.args[1], row))
+	case "bitxor":
+		return OpBitXor(ev.eval(e.args[0], row), ev.eval(e.args[1], row))
+	case "lshift":
+		return OpLeftShift(ev.eval(e.args[0], row), ev.eval(e.args[1], row))
+	case "rshift":
+		return OpRightShift(ev.eval(e.args[0], row), ev.eval(e.args[1], row))
+	case "match":
+		return OpMatch(vfTh, ev.eval(e.args[0], row), ev.eval(e.args[1], row))
+	case "matchnot":
+		return OpMatch(vfTh, ev.eval(e.args[0], row), ev.eval(e.args[1], row)).Not()
 	case "tern":
 		c := ev.bool(e.args[0], row)
 		t := ev.eval(e.args[1], row)
